@@ -104,12 +104,14 @@ func (self ValueString) Fields() (map[string]*Value, *VmInterrupt) {
 		}),
 		"substring": NewValueBuiltinFunction(func(executor Executor, cancelCtx *context.Context, span errors.Span, args ...Value) (*Value, *VmInterrupt) {
 			upper := args[0].(ValueInt).Inner
+			// count characters like `len` does, not bytes
+			runes := []rune(self.Inner)
 
-			if upper < 0 || upper >= int64(len(self.Inner)) {
+			if upper < 0 || upper >= int64(len(runes)) {
 				return nil, NewVMThrowInterrupt(span, "index out of range")
 			}
 
-			sub := self.Inner[0:upper]
+			sub := string(runes[0:upper])
 			return NewValueString(sub), nil
 		}),
 		"parse_json": NewValueBuiltinFunction(func(executor Executor, cancelCtx *context.Context, span errors.Span, args ...Value) (*Value, *VmInterrupt) {
